@@ -53,15 +53,19 @@ Case(k, a, b, s, den, sep, g) ==
   [k |-> k, d |-> D, a |-> a, b |-> b, s |-> s, den |-> den, sep |-> sep, g |-> g,
    ty |-> TypesFor(a, b, s, den), txt |-> IF k = "I" THEN Seps[sep] \o StreamText(VOver(a, den), Seps[sep]) ELSE ""]
 
-CasesB == { Case("B", Tup(a), Tup(b), 0, den, 0, IF NoZero(b) THEN <<"ring", "div">> ELSE <<"ring">>) :
+CasesB == IF "B" \notin GenKinds THEN {} ELSE
+          { Case("B", Tup(a), Tup(b), 0, den, 0, IF NoZero(b) THEN <<"ring", "div">> ELSE <<"ring">>) :
               a \in VecsA, b \in Vecs(CompsB), den \in Dens }
-CasesS == { Case("S", Tup(a), ZeroD, s, den, 0, IF s # 0 THEN <<"ring", "sdiv">> ELSE <<"ring">>) :
+CasesS == IF "S" \notin GenKinds THEN {} ELSE
+          { Case("S", Tup(a), ZeroD, s, den, 0, IF s # 0 THEN <<"ring", "sdiv">> ELSE <<"ring">>) :
               a \in VecsA, s \in Scalars, den \in Dens }
 GroupsU(a) == <<"ring">> \o (IF a # ZeroD THEN <<"nz">> ELSE <<>>)
                          \o (IF D = 4 /\ a[4] # 0 THEN <<"hom">> ELSE <<>>)
                          \o (IF NonNeg(a) THEN <<"cvu">> ELSE <<>>)
-CasesU == { Case("U", Tup(a), ZeroD, 0, den, 0, GroupsU(Tup(a))) : a \in VecsA, den \in Dens }
-CasesI == { Case("I", Tup(a), ZeroD, 0, den, sep, <<"ring">>) : a \in VecsA, den \in Dens, sep \in 1 .. Len(Seps) }
+CasesU == IF "U" \notin GenKinds THEN {} ELSE
+          { Case("U", Tup(a), ZeroD, 0, den, 0, GroupsU(Tup(a))) : a \in VecsA, den \in Dens }
+CasesI == IF "I" \notin GenKinds THEN {} ELSE
+          { Case("I", Tup(a), ZeroD, 0, den, sep, <<"ring">>) : a \in VecsA, den \in Dens, sep \in 1 .. Len(Seps) }
 
 (* ------------------------------ kind G --------------------------------- *)
 Shapes == {"tet", "cube", "prism"}
@@ -84,11 +88,10 @@ Img(m, t, p) == [i \in 1 .. 3 |-> m[i][1] * p[1] + m[i][2] * p[2] + m[i][3] * p[
 CaseG(sh, mt, vt, m, t) ==
   [k |-> "G", d |-> 3, shape |-> sh, mt |-> mt, vt |-> vt,
    pos |-> [v \in 1 .. Len(BaseOf(sh)) |-> Img(m, t, BaseOf(sh)[v])]]
-CasesG == UNION { { CaseG(sh, mt, vt, m, t) : mt \in MeshTypesOf(sh), vt \in {"d", "f"}, m \in Mats, t \in Shifts } :
+CasesG == IF "G" \notin GenKinds THEN {} ELSE UNION { { CaseG(sh, mt, vt, m, t) : mt \in MeshTypesOf(sh), vt \in {"d", "f"}, m \in Mats, t \in Shifts } :
                   sh \in Shapes }
 
-Cases == (IF "B" \in GenKinds THEN CasesB ELSE {}) \cup (IF "S" \in GenKinds THEN CasesS ELSE {})
-         \cup (IF "U" \in GenKinds THEN CasesU ELSE {}) \cup (IF "I" \in GenKinds THEN CasesI ELSE {})
+Cases == CasesB \cup CasesS \cup CasesU \cup CasesI
 
 (* ------------- laws of the definitions (checked on every case) --------- *)
 LawsB(a, b) ==
@@ -126,7 +129,7 @@ ASSUME TruncDiv(-7, 2) = -3 /\ TruncDiv(7, -2) = -3 /\ TruncDiv(-7, -2) = 3 /\ R
 ASSUME RatStr(<<-3, 2>>) = "-1.5" /\ RatStr(<<1, 4>>) = "0.25" /\ RatStr(<<-2, 1>>) = "-2" /\ RatStr(<<0, 1>>) = "0"
 
 (* ------------------------------ behaviour ------------------------------ *)
-Init == c \in (Cases \cup (IF "G" \in GenKinds THEN CasesG ELSE {}))
+Init == c \in (Cases \cup CasesG)
 Next == UNCHANGED c
 Spec == Init /\ [][Next]_c
 
